@@ -29,6 +29,7 @@ int   gv_exc;
 Index gv_k0;    /* ghost row index (forall-introduction in postconditions)              */
 Index gv_k1;    /* second ghost row index (monotonicity of non-adjacent row pointers)   */
 long  gv_e0;    /* ghost element index inside a row / inside env_                       */
+long  gv_o0, gv_l0;   /* names for the offset (in elements) and the length of ghost row gv_k0  */
 #define FSZ ((long)sizeof(Float))
 #define PSZ ((long)sizeof(Float *))
 #define MAXDIM 1000000
@@ -65,7 +66,13 @@ static Float *gv_null_profile(void) { Float *p = malloc(0); __CPROVER_assume(p !
 #define WF_ALL0(E) ((E)->dim_ == 0 || (WF_SHAPE(E) && WF_ENDS(E)))
 
 /* the closed form that inverse() and copy() establish: row pointer r of S is row pointer r of C moved into S->env_ */
-#define SHIFT(S, C, r) (SAME((S)->xenv_[r], (S)->env_) && OFF((S)->xenv_[r]) == OFF((C)->xenv_[r]) - OFF((C)->xenv_[1]))
+#define SHIFT(S, C, r) (SAME((S)->xenv_[r], (S)->env_) && OFF((S)->xenv_[r]) == OFF((C)->xenv_[r]))   /* C->xenv_[1] has offset 0: WF_ENDS(C) */
+/* the same facts over row pointers that a ghost block has loaded once (fewer array reads for the solver) */
+#define SHIFTP(S, sp, cp) (SAME(sp, (S)->env_) && OFF(sp) == OFF(cp))
+#define ROWP(E, r, pb, pe)                                                                             \
+  (SAME(pb, (E)->env_) && SAME(pe, (E)->env_) && OFF(pb) >= 0 && OFF(pb) <= OFF(pe) &&                 \
+   OFF(pe) <= (E)->gv_env_size * FSZ && OFF(pb) % FSZ == 0 && OFF(pe) % FSZ == 0 &&                    \
+   (OFF(pe) - OFF(pb)) / FSZ <= (long)(r)-1)
 
 /* forall-elimination of a fact that THIS function has established for an arbitrary ghost index earlier on (the object it
    speaks about is not assigned in between: it is in no later assigns clause) */
@@ -144,11 +151,14 @@ __CPROVER_ensures((self->dim_ > 0 && 0 <= gv_e0 && gv_e0 < self->gv_env_size) ==
 //@ entry Envelope_copy
 GV_CANARY("Envelope_copy entry");
 //@ at Envelope_copy gvsize
+#include "ghost_begin.h"
 GV_SET_ENV_SIZE(self, env_size);
+#include "ghost_end.h"
 //@ loop Envelope_copy 1
+#include "ghost_begin.h"
 __CPROVER_assigns(i, t, d, cd, __CPROVER_object_whole(self->diag_), __CPROVER_object_whole(self->xenv_))
 __CPROVER_loop_invariant(1 <= i && i <= self->dim_ + 1 && SAME(t, self->env_) &&
-                         OFF(t) == OFF(envelope->xenv_[i]) - OFF(envelope->xenv_[1]) &&
+                         OFF(t) == OFF(envelope->xenv_[i]) &&
                          SAME(d, self->diag_) && OFF(d) == FSZ * ((long)i - 1) &&
                          SAME(cd, envelope->diag_) && OFF(cd) == OFF(envelope->diag_) + FSZ * ((long)i - 1) &&
                          (1 < i ==> (SAME(self->xenv_[1], self->env_) && OFF(self->xenv_[1]) == 0)) &&
@@ -157,27 +167,36 @@ __CPROVER_loop_invariant(1 <= i && i <= self->dim_ + 1 && SAME(t, self->env_) &&
                          ((1 <= gv_k1 && gv_k1 < i) ==> SHIFT(self, envelope, gv_k1)) &&
                          ((1 <= gv_k0 && gv_k0 < i) ==> FEQ(self->diag_[gv_k0 - 1], envelope->diag_[gv_k0 - 1])))
 __CPROVER_decreases((long)self->dim_ + 1 - i)
+#include "ghost_end.h"
 //@ head Envelope_copy 1
+#include "ghost_begin.h"
 GV_ANCHOR(d, self->diag_ + (i - 1));
 GV_INST(1 <= i && i <= envelope->dim_, WF_ROW(envelope, i));
+#include "ghost_end.h"
 //@ loop Envelope_copy 2
+#include "ghost_begin.h"
 __CPROVER_assigns(i, e, ce, __CPROVER_object_whole(self->env_))
 __CPROVER_loop_invariant(1 <= i && i <= env_size + 1 && SAME(e, self->env_) && OFF(e) == FSZ * ((long)i - 1) &&
                          SAME(ce, envelope->env_) && OFF(ce) == OFF(envelope->env_) + FSZ * ((long)i - 1) &&
                          ((0 <= gv_e0 && gv_e0 < i - 1) ==> FEQ(self->env_[gv_e0], envelope->env_[gv_e0])))
 __CPROVER_decreases((long)env_size + 1 - i)
+#include "ghost_end.h"
 //@ head Envelope_copy 2
+#include "ghost_begin.h"
 GV_ANCHOR(e, self->env_ + (i - 1));
+#include "ghost_end.h"
 //@ end
 
 /* ------------------------------------------------------------------------------------------------ */
 /* inverse(chol): the sparse inverse restricted to the profile of the factor.  Structural contract (C03-U1, C16-U3):
    S1  memory safety and frame for all well-formed factor envelopes (symbolic dimension and profile);
-   S2  the result has the row structure of the factor (closed form SHIFT, hence equal row lengths) and is well formed;
+   S2  the result has the row structure of the factor (closed form SHIFT: row pointer r of the result sits at the same
+       offset as row pointer r of the factor, hence equal row lengths, WF_ROW, WF_ENDS, WF_MONO carry over);
    S3  whenever u = chol.element(..) is non-null, the matching z = element(..) is non-null (named assertions z1, z2
        and the dereference checks of *z);
    S4  a row whose pivot in chol is zero is zeroed entirely: diagonal and every stored element of the row.
-   Envelope::element is replaced by its contract (verified in this unit under the weaker precondition).            */
+   Ghost naming of the arbitrary row gv_k0: it starts gv_o0 elements into env_ and has gv_l0 elements; gv_e0 is an
+   arbitrary element index.  Envelope::element/begin/end/diagonal/clear are inlined (their real bodies are part of this proof). */
 //@ contract Envelope_inverse
 __CPROVER_requires(__CPROVER_rw_ok(self, sizeof(struct Envelope)) && self != chol)
 __CPROVER_requires(WF_ALL0(chol))
@@ -187,106 +206,146 @@ __CPROVER_requires((self->diag_ == NULL || __CPROVER_is_freeable(self->diag_)) &
 __CPROVER_requires(chol->dim_ == 0 || ((self->diag_ == NULL || (!SAME(self->diag_, chol->diag_) && !SAME(self->diag_, chol->env_) && !SAME(self->diag_, chol->xenv_))) &&
                                        (self->env_ == NULL || (!SAME(self->env_, chol->diag_) && !SAME(self->env_, chol->env_) && !SAME(self->env_, chol->xenv_))) &&
                                        (self->xenv_ == NULL || (!SAME(self->xenv_, chol->diag_) && !SAME(self->xenv_, chol->env_) && !SAME(self->xenv_, chol->xenv_)))))
+/* instance of the structure invariant at the ghost row, and the names of its offset and length */
+__CPROVER_requires(ROW_IN(chol, gv_k0) ==> (WF_ROW(chol, gv_k0) && OFF(chol->xenv_[gv_k0]) == FSZ * gv_o0 &&
+                                            OFF(chol->xenv_[gv_k0 + 1]) == FSZ * (gv_o0 + gv_l0)))
 __CPROVER_assigns(self->dim_, self->defect_, self->diag_, self->env_, self->xenv_, self->gv_env_size)
 __CPROVER_frees(self->diag_, self->env_, self->xenv_)
 __CPROVER_ensures(self->dim_ == chol->dim_ && self->defect_ == 0)
 __CPROVER_ensures(self->dim_ == 0 ==> (self->diag_ == NULL && self->env_ == NULL && self->xenv_ == NULL))
 __CPROVER_ensures(self->dim_ > 0 ==> (WF_SHAPE(self) && WF_ENDS(self) && self->gv_env_size == chol->gv_env_size))
+__CPROVER_ensures(self->dim_ > 0 ==> (__CPROVER_is_freeable(self->diag_) && __CPROVER_is_freeable(self->xenv_) && __CPROVER_is_freeable(self->env_)))
 __CPROVER_ensures(self->dim_ > 0 ==> (!SAME(self->diag_, chol->diag_) && !SAME(self->xenv_, chol->xenv_) &&
                                       !SAME(self->env_, chol->env_)))
 /* S2 */
-__CPROVER_ensures(PTR_IN(self, gv_k0) ==> SHIFT(self, chol, gv_k0))
+__CPROVER_ensures(ROW_IN(self, gv_k0) ==> (SHIFT(self, chol, gv_k0) && SHIFT(self, chol, gv_k0 + 1)))
 __CPROVER_ensures(ROW_IN(self, gv_k0) ==> (WF_ROW(self, gv_k0) && ROWLEN(self, gv_k0) == ROWLEN(chol, gv_k0)))
-__CPROVER_ensures((PTR_IN(self, gv_k0) && PTR_IN(self, gv_k1)) ==> WF_MONO(self, gv_k0, gv_k1))
 /* S4 */
 __CPROVER_ensures((ROW_IN(self, gv_k0) && chol->diag_[gv_k0 - 1] == 0) ==>
-                  (self->diag_[gv_k0 - 1] == 0 && ((0 <= gv_e0 && gv_e0 < ROWLEN(self, gv_k0)) ==> self->xenv_[gv_k0][gv_e0] == 0)))
+                  (self->diag_[gv_k0 - 1] == 0 && ((0 <= gv_e0 && gv_e0 < gv_l0) ==> self->env_[gv_o0 + gv_e0] == 0)))
 //@ entry Envelope_inverse
 GV_CANARY("Envelope_inverse entry");
+#include "ghost_begin.h"
+const _Bool gv_zr = ROW_IN(chol, gv_k0) && chol->diag_[gv_k0 - 1] == 0;   /* the ghost row has a zero pivot */
+const _Bool gv_ze = gv_zr && 0 <= gv_e0 && gv_e0 < gv_l0;                 /* ... and gv_e0 is one of its elements */
+#include "ghost_end.h"
 //@ at Envelope_inverse gvsize
+#include "ghost_begin.h"
 GV_SET_ENV_SIZE(self, env_size);
+#include "ghost_end.h"
 //@ loop Envelope_inverse 1
+#include "ghost_begin.h"
 __CPROVER_assigns(i, t, __CPROVER_object_whole(self->xenv_))
-__CPROVER_loop_invariant(1 <= i && i <= self->dim_ + 1 && SAME(t, self->env_) &&
-                         OFF(t) == OFF(chol->xenv_[i]) - OFF(chol->xenv_[1]) &&
+__CPROVER_loop_invariant(1 <= i && i <= self->dim_ + 1 && SAME(t, self->env_) && OFF(t) == OFF(chol->xenv_[i]) &&
                          (1 < i ==> (SAME(self->xenv_[1], self->env_) && OFF(self->xenv_[1]) == 0)) &&
-                         ((1 <= gv_k0 && gv_k0 < i) ==> SHIFT(self, chol, gv_k0)) &&
-                         ((1 <= gv_k0 && gv_k0 < i - 1) ==> SHIFT(self, chol, gv_k0 + 1)) &&
-                         ((1 <= gv_k1 && gv_k1 < i) ==> SHIFT(self, chol, gv_k1)))
+                         ((1 <= gv_k0 && gv_k0 < i) ==> (SAME(self->xenv_[gv_k0], self->env_) && OFF(self->xenv_[gv_k0]) == FSZ * gv_o0)) &&
+                         ((1 <= gv_k0 && gv_k0 < i - 1) ==> (SAME(self->xenv_[gv_k0 + 1], self->env_) && OFF(self->xenv_[gv_k0 + 1]) == FSZ * (gv_o0 + gv_l0))))
 __CPROVER_decreases((long)self->dim_ + 1 - i)
+#include "ghost_end.h"
 //@ head Envelope_inverse 1
-GV_INST(1 <= i && i <= chol->dim_, WF_ROW(chol, i));
+#include "ghost_begin.h"
+const Float *const gv_cb1 = chol->xenv_[i], *const gv_ce1 = chol->xenv_[i + 1];
+GV_INST(1 <= i && i <= chol->dim_, ROWP(chol, i, gv_cb1, gv_ce1));
+#include "ghost_end.h"
 //@ at Envelope_inverse built
-/* forall-introduction: the closed form holds at the arbitrary ghost indices (gv_k0, gv_k0+1, gv_k1); self->xenv_ is in no
-   assigns clause below, so GV_INST_EST may use it at any range-checked index from here on */
-__CPROVER_assert(PTR_IN(self, gv_k0) ==> SHIFT(self, chol, gv_k0), "established: closed form of row pointer gv_k0");
+#include "ghost_begin.h"
+/* forall-introduction: the closed form holds at the arbitrary ghost row (pointers gv_k0 and gv_k0+1); self->xenv_ is in no
+   assigns clause below, so GV_INST_EST may use the closed form at any range-checked index from here on */
+__CPROVER_assert(ROW_IN(self, gv_k0) ==> SHIFT(self, chol, gv_k0), "established: closed form of row pointer gv_k0");
 __CPROVER_assert(ROW_IN(self, gv_k0) ==> SHIFT(self, chol, gv_k0 + 1), "established: closed form of row pointer gv_k0+1");
-__CPROVER_assert(PTR_IN(self, gv_k1) ==> SHIFT(self, chol, gv_k1), "established: closed form of row pointer gv_k1");
 Float *const gv_env = self->env_;
+#include "ghost_end.h"
 //@ loop Envelope_inverse 2
+#include "ghost_begin.h"
 __CPROVER_assigns(step, d, s, u, z, __CPROVER_object_whole(self->diag_), __CPROVER_object_whole(self->env_))
 __CPROVER_loop_invariant(0 <= step && step <= self->dim_ &&
-                         ((step < gv_k0 && gv_k0 <= self->dim_ && chol->diag_[gv_k0 - 1] == 0) ==>
-                          (self->diag_[gv_k0 - 1] == 0 && ((0 <= gv_e0 && gv_e0 < ROWLEN(self, gv_k0)) ==> self->xenv_[gv_k0][gv_e0] == 0))))
+                         ((gv_zr && step < gv_k0) ==> self->diag_[gv_k0 - 1] == 0) &&
+                         ((gv_ze && step < gv_k0) ==> gv_env[gv_o0 + gv_e0] == 0))
 __CPROVER_decreases((long)step)
+#include "ghost_end.h"
 //@ head Envelope_inverse 2
-GV_INST(1 <= step && step <= chol->dim_, WF_ROW(chol, step));
-GV_INST_EST(1 <= step && step <= self->dim_, SHIFT(self, chol, step) && SHIFT(self, chol, step + 1));
-if (step < gv_k0 && gv_k0 <= self->dim_) {
-  GV_INST(1 <= step + 1 && gv_k0 <= chol->dim_ + 1, WF_MONO(chol, step + 1, gv_k0));
-  GV_INST(1 <= gv_k0 && gv_k0 <= chol->dim_, WF_ROW(chol, gv_k0));
+#include "ghost_begin.h"
+const Float *const gv_cb = chol->xenv_[step], *const gv_ce = chol->xenv_[step + 1];
+GV_INST(1 <= step && step <= chol->dim_, ROWP(chol, step, gv_cb, gv_ce));
+GV_INST_EST(1 <= step && step <= self->dim_, SHIFTP(self, self->xenv_[step], gv_cb) && SHIFTP(self, self->xenv_[step + 1], gv_ce));
+if (gv_zr && step < gv_k0) {
+  GV_INST(1 <= step + 1 && gv_k0 <= chol->dim_ + 1, OFF(gv_ce) <= FSZ * gv_o0);   /* WF_MONO(chol, step+1, gv_k0) */
 }
-const long gv_rb = chol->xenv_[step] - chol->xenv_[1];       /* offset (in elements) of row `step` in env_ */
-const long gv_re = chol->xenv_[step + 1] - chol->xenv_[1];   /* offset of its end */
+const long gv_rb = gv_cb - chol->env_;   /* offset (in elements) of row `step` in env_ */
+const long gv_re = gv_ce - chol->env_;   /* offset of its end */
+#include "ghost_end.h"
 //@ pre Envelope_inverse 3
+#include "ghost_begin.h"
 GV_ANCHOR(b, gv_env + gv_rb);
 GV_ANCHOR(e, gv_env + gv_re);
+#include "ghost_end.h"
 //@ loop Envelope_inverse 3
+#include "ghost_begin.h"
 __CPROVER_assigns(b, __CPROVER_object_whole(self->env_))
-__CPROVER_loop_invariant(SAME(b, e) && OFF(self->xenv_[step]) <= OFF(b) && OFF(b) <= OFF(e) && (OFF(e) - OFF(b)) % FSZ == 0 &&
-                         ((step < gv_k0 && gv_k0 <= self->dim_ && chol->diag_[gv_k0 - 1] == 0) ==>
-                          ((0 <= gv_e0 && gv_e0 < ROWLEN(self, gv_k0)) ==> self->xenv_[gv_k0][gv_e0] == 0)) &&
-                         ((step == gv_k0 && 0 <= gv_e0 && gv_e0 < (OFF(b) - OFF(self->xenv_[step])) / FSZ) ==> self->xenv_[gv_k0][gv_e0] == 0))
+__CPROVER_loop_invariant(SAME(b, e) && FSZ * gv_rb <= OFF(b) && OFF(b) <= OFF(e) && (OFF(e) - OFF(b)) % FSZ == 0 &&
+                         ((gv_ze && step < gv_k0) ==> gv_env[gv_o0 + gv_e0] == 0) &&
+                         ((gv_ze && step == gv_k0 && FSZ * (gv_o0 + gv_e0) < OFF(b)) ==> gv_env[gv_o0 + gv_e0] == 0))
 __CPROVER_decreases(OFF(e) - OFF(b))
+#include "ghost_end.h"
 //@ head Envelope_inverse 3
+#include "ghost_begin.h"
 GV_ANCHOR(b, e - (e - b));
+#include "ghost_end.h"
 //@ loop Envelope_inverse 4
+#include "ghost_begin.h"
 __CPROVER_assigns(n, k, d, u, z)
 __CPROVER_loop_invariant(step + 1 <= k && k <= self->dim_ + 1 && n == k - step)
 __CPROVER_decreases((long)self->dim_ + 1 - k)
+#include "ghost_end.h"
 //@ head Envelope_inverse 4
-GV_INST(1 <= k && k <= chol->dim_, WF_ROW(chol, k));
-GV_INST_EST(1 <= k && k <= self->dim_, SHIFT(self, chol, k) && SHIFT(self, chol, k + 1));
+#include "ghost_begin.h"
+const Float *const gv_cb4 = chol->xenv_[k], *const gv_ce4 = chol->xenv_[k + 1];
+GV_INST(1 <= k && k <= chol->dim_, ROWP(chol, k, gv_cb4, gv_ce4));
+GV_INST_EST(1 <= k && k <= self->dim_, SHIFTP(self, self->xenv_[k], gv_cb4) && SHIFTP(self, self->xenv_[k + 1], gv_ce4));
+#include "ghost_end.h"
 //@ at Envelope_inverse z1
+#include "ghost_begin.h"
 __CPROVER_assert(z != NULL, "S3: z = element(step,k) is non-null whenever u = chol.element(k,step) is");
+/* anchors (assert the equality, then re-assign it): u and z come out of arrays whose contents CBMC's value-set analysis cannot
+   track (harness-built resp. havocked by the contract of loop 1); the re-assignment gives them a base for the two reads below */
+GV_ANCHOR(u, chol->env_ + (gv_ce4 - chol->env_) - (k - step));
+GV_ANCHOR(z, gv_env + (gv_ce4 - chol->env_) - (k - step));
+#include "ghost_end.h"
 //@ pre Envelope_inverse 5
+#include "ghost_begin.h"
 GV_ANCHOR(b, gv_env + gv_rb);
 GV_ANCHOR(e, gv_env + gv_re);
+#include "ghost_end.h"
 //@ loop Envelope_inverse 5
+#include "ghost_begin.h"
 __CPROVER_assigns(i, e, s, u, z, __CPROVER_object_whole(self->env_))
-__CPROVER_loop_invariant(0 <= i && i <= step - 1 && SAME(e, self->env_) && OFF(b) <= OFF(e) &&
-                         OFF(e) == OFF(self->xenv_[step + 1]) - FSZ * ((long)step - 1 - i) &&
-                         ((step < gv_k0 && gv_k0 <= self->dim_ && chol->diag_[gv_k0 - 1] == 0) ==>
-                          ((0 <= gv_e0 && gv_e0 < ROWLEN(self, gv_k0)) ==> self->xenv_[gv_k0][gv_e0] == 0)))
+__CPROVER_loop_invariant(0 <= i && i <= step - 1 && SAME(e, self->env_) && FSZ * gv_rb <= OFF(e) &&
+                         OFF(e) == FSZ * (gv_re - ((long)step - 1 - i)) &&
+                         ((gv_ze && step < gv_k0) ==> gv_env[gv_o0 + gv_e0] == 0))
 __CPROVER_decreases((long)i)
+#include "ghost_end.h"
 //@ head Envelope_inverse 5
+#include "ghost_begin.h"
 GV_ANCHOR(e, gv_env + gv_re - (step - 1 - i));
+#include "ghost_end.h"
 //@ loop Envelope_inverse 6
+#include "ghost_begin.h"
 __CPROVER_assigns(k, s, u, z)
 __CPROVER_loop_invariant(i + 1 <= k && k <= self->dim_ + 1)
 __CPROVER_decreases((long)self->dim_ + 1 - k)
+#include "ghost_end.h"
 //@ head Envelope_inverse 6
-GV_INST(1 <= k && k <= chol->dim_, WF_ROW(chol, k));
-GV_INST_EST(1 <= k && k <= self->dim_, SHIFT(self, chol, k) && SHIFT(self, chol, k + 1));
+#include "ghost_begin.h"
+const Float *const gv_cb6 = chol->xenv_[k], *const gv_ce6 = chol->xenv_[k + 1];
+GV_INST(1 <= k && k <= chol->dim_, ROWP(chol, k, gv_cb6, gv_ce6));
+GV_INST_EST(1 <= k && k <= self->dim_, SHIFTP(self, self->xenv_[k], gv_cb6) && SHIFTP(self, self->xenv_[k + 1], gv_ce6));
+#include "ghost_end.h"
 //@ at Envelope_inverse z2
+#include "ghost_begin.h"
 __CPROVER_assert(z != NULL, "S3: z = element(k,step) is non-null whenever u = chol.element(i,k) is");
-//@ post Envelope_inverse 2
-if (ROW_IN(self, gv_k0)) {
-  GV_INST(1 <= gv_k0 && gv_k0 <= chol->dim_, WF_ROW(chol, gv_k0));
-}
-if (PTR_IN(self, gv_k0) && PTR_IN(self, gv_k1)) {
-  GV_INST(1 <= gv_k0 && gv_k1 <= chol->dim_ + 1, WF_MONO(chol, gv_k0, gv_k1));
-}
+GV_ANCHOR(u, chol->env_ + (gv_ce6 - chol->env_) - (k - i));
+GV_ANCHOR(z, k == step ? self->diag_ + (step - 1) : k < step ? gv_env + gv_re - (step - k) : gv_env + (gv_ce6 - chol->env_) - (k - step));
+#include "ghost_end.h"
 //@ end
 
 //@ harness
@@ -331,8 +390,10 @@ void h_inverse(void)
   _Bool fresh;
   if (fresh) { struct Envelope Z0 = GV_ENV_DEFAULT; Z = Z0; }
   else mk_envelope(&Z, 1);              /* an object that already holds an envelope: clear() frees it */
-  Index k0, k1; long e0;
-  gv_k0 = k0; gv_k1 = k1; gv_e0 = e0;
+  Index k0; long e0, o0, l0;
+  gv_k0 = k0; gv_e0 = e0; gv_o0 = o0; gv_l0 = l0;
+  if (ROW_IN(&C, gv_k0))                /* instance of the structure invariant at the ghost row; names of its offset/length */
+    __CPROVER_assume(WF_ROW(&C, gv_k0) && OFF(C.xenv_[gv_k0]) == FSZ * gv_o0 && OFF(C.xenv_[gv_k0 + 1]) == FSZ * (gv_o0 + gv_l0));
   gv_exc = 0;
   Envelope_inverse(&Z, &C);
   GV_CANARY("h_inverse end");
